@@ -10,3 +10,4 @@ import NimaVerif.Props.C02
 #print axioms Nima.C02.multiline_block_canonical
 #print axioms Nima.C02.multiline_block_canonical_text
 #print axioms Nima.C02.written_comments_are_canonical
+#print axioms Nima.C02.frag_reproduced_is_normal_form
